@@ -518,6 +518,9 @@ def family_c19(seed, model, out, shape=None):
                 dst = rng.choice(dests[:-2])          # at least two targets beyond the first
             src = '%s/TEST-%d%s' % (rng.choice(['bugfix', 'feature', 'improvement']), i + 1,
                                     rng.choice(['', '-fix', '-w-5.1', '/sub']))
+            if prs and rng.random() < 0.3:
+                # names in a prefix relation (TEST-1 / TEST-12, foo / foo-bis)
+                src = prs[0]['src'] + rng.choice(['2', '-bis', '0'])
             ev = {'e': 'create_pr', 'src': src, 'dst': dst, 'label': 'c%d' % (i + 1)}
             if rng.random() < 0.4:
                 # titles people write: with numbers in them (a step, a version, another pull request's number)
